@@ -1,6 +1,6 @@
 (* C14 wave 7: merge_concurrent_captions (model.LangsMerge) against the specification's grouping of equal-span runs. *)
 From Coq Require Import List ZArith Lia Bool ZifyBool Arith.
-From PV Require Import lib.Sx lib.Str model.Langs spec.SpecFindLang model.LangsMerge proofs.LangsFacts.
+From PV Require Import lib.Sx lib.Str lib.Result model.Langs spec.SpecLangs spec.SpecFindLang model.LangsMerge proofs.LangsFacts.
 Import ListNotations.
 Open Scope Z_scope.
 
@@ -252,4 +252,34 @@ Proof.
   assert (E : map fst (spec_merge_set cs) = map fst cs) by (unfold spec_merge_set; rewrite map_map; reflexivity).
   rewrite E, strs_eqb_refl, mset_eqb_refl. cbn [andb]. unfold spec_merge_set. rewrite forallb_forall.
   intros x Hx. apply in_map_iff in Hx. destruct Hx as [[l caps] [<- _]]. cbn [snd]. apply spec_merge_spans_differ.
+Qed.
+
+(* ---- the writers that merge first ------------------------------------------------------------------------------ *)
+Lemma flat_set_languages : forall cs, languages (flat_set cs) = map fst cs.
+Proof. intros. unfold languages, flat_set. rewrite map_map. reflexivity. Qed.
+Lemma spec_merge_set_names : forall cs, map fst (spec_merge_set cs) = map fst cs.
+Proof. intros. unfold spec_merge_set. rewrite map_map. reflexivity. Qed.
+
+(* what is written is judged against the GROUPED set: the divs are its languages in order with identical cue lists,
+   a present force selects exactly that language *)
+Theorem single_write_meets_oracle : forall force cs, nodes_nonempty cs -> NoDup (map fst cs) ->
+  ok_dfxp_write force (flat_set (spec_merge_set cs)) (doc_sset (single_write force cs)) = true.
+Proof.
+  intros force cs Nn N. unfold single_write. rewrite merge_concurrent_is_spec by exact Nn.
+  apply dfxp_write_meets_oracle. rewrite flat_set_languages, spec_merge_set_names. exact N.
+Qed.
+Theorem legacy_merge_write_meets_oracle : forall force cs d, nodes_nonempty cs -> NoDup (map fst cs) ->
+  mem [] (map fst cs) = false -> legacy_merge_write force cs = Ok d ->
+  ok_dfxp_write force (flat_set (spec_merge_set cs)) (doc_sset d) = true.
+Proof.
+  intros force cs d Nn N Ne H. unfold legacy_merge_write in H. rewrite merge_concurrent_is_spec in H by exact Nn.
+  apply legacy_write_meets_oracle in H; [exact H| |]; rewrite flat_set_languages, spec_merge_set_names; assumption.
+Qed.
+(* write (single-positioning writer, no force), then read: the grouped set comes back - same languages, same order,
+   each language with its grouped cue list *)
+Theorem single_write_roundtrip : forall default cs, nodes_nonempty cs -> NoDup (map fst cs) -> mem [] (map fst cs) = false ->
+  dfxp_read default (single_write [] cs) = flat_set (spec_merge_set cs).
+Proof.
+  intros default cs Nn N Ne. unfold single_write. rewrite merge_concurrent_is_spec by exact Nn.
+  apply dfxp_roundtrip_langs; rewrite flat_set_languages, spec_merge_set_names; assumption.
 Qed.
